@@ -75,16 +75,19 @@ def gen_intact(maxfiles, sizes):
     return g
 
 
-def gen_faults(maxfiles, sizes, step):
+def gen_faults(maxfiles, sizes, step, only_fields_above=None):
+    """only_fields_above=k: archives with more than k entries get the size-field faults only (keeps the quick tier short while
+    still corrupting a length field next to other non-empty entries)."""
     def g():
         for a in archives(maxfiles, sizes):
             if not a[1]:
                 continue
             blob, layout, files = build(a)
-            for n in range(0, len(blob), step):
+            full = only_fields_above is None or len(files) <= only_fields_above
+            for n in range(0, len(blob), step) if full else ():
                 yield [a, ["trunc", n]]
             hdr_end = layout["table"][1]
-            for pos in range(0, hdr_end):
+            for pos in range(0, hdr_end) if full else ():
                 for v in (0x00, 0x01, 0x7F, 0xFF):
                     if blob[pos] != v:
                         yield [a, ["byte", pos, v]]
@@ -192,5 +195,5 @@ def spaces(tier):
     return [Space("intact", gen_intact(2 if q else 3, SIZES if not q else [0, 1, 256, 5000]), check, variant="asan", describe="well-formed archives read back"),
             Space("long-header-strings", gen_long, check, variant="asan",
                   describe="entry names, property keys / values and prefixes of 254..700 bytes (the reader scans strings in 256-byte chunks)"),
-            Space("faults", gen_faults(1 if q else 2, [1, 257] if q else [0, 1, 257], 1), check, variant="asan",
+            Space("faults", gen_faults(2, [1, 257] if q else [0, 1, 257], 1, 1 if q else None), check, variant="asan",
                   describe="every truncation point, header-region byte x4, size field x6, absent/directory/unreadable")]
